@@ -105,6 +105,7 @@ func vmOutcome(i *vv.VmInterrupt) sb.Outcome {
 	case vv.VmFatalException:
 		o.Class = "fatal"
 		o.Kind = fatalKindNameVM(x.ErrKind)
+		_ = x.KindString()
 	case vv.Vm_NormalException:
 		o.Class = "exception"
 	case vv.VmTerminationInterrupt:
@@ -117,20 +118,9 @@ func vmOutcome(i *vv.VmInterrupt) sb.Outcome {
 	return o
 }
 
+// fatalKindNameVM: a host asks the interrupt it received for its kind; a kind without a name is a Go panic in the host
+// (finding C02-023: ImportError and JsonError had none), which the sandbox reports as a host crash.
 func fatalKindNameVM(k vv.VMFatalExceptionKind) (s string) {
-	defer func() {
-		if r := recover(); r != nil {
-			// the String() method lacks some kinds
-			switch k {
-			case vv.Vm_ImportErrorKind:
-				s = "ImportError"
-			case vv.Vm_JsonErrorKind:
-				s = "JsonError"
-			default:
-				s = fmt.Sprintf("kind#%d", k)
-			}
-		}
-	}()
 	return k.String()
 }
 
